@@ -95,10 +95,6 @@ def stackLookup (x : String) : SStack → Option Expr
     | some r => some r
     | Option.none => stackLookup x fs
 
-def distinctS : List String → Bool
-  | [] => true
-  | s :: ss => !ss.contains s && distinctS ss
-
 def sameSet (a b : List String) : Bool := a.all (b.contains ·) && b.all (a.contains ·)
 
 def dictLookupConst (keys vals : List Expr) (k : Const) : Option Expr :=
